@@ -99,6 +99,22 @@ def main():
         except TypeError:
             return None
 
+    WIDE = [embed.classes(f_, impl) for f_ in ('OO', 'LL', 'QQ')]
+
+    def setsources(k):
+        """Sets / TreeSets of wider families (of the same implementation) holding k: [(tag, container)]"""
+        out = []
+        for fi, C in enumerate(WIDE):
+            for ci, tag in ((2, 'treeset'), (3, 'set')):
+                try:
+                    src = C[ci]([k])
+                except (TypeError, OverflowError):
+                    continue
+                held = list(src)[0]
+                if held is k or (type(held) is type(k) and held == k):      # (an LL set turns True into 1: not the same offer)
+                    out.append(('%s%d' % (tag, fi), src))
+        return out
+
     def fresh(cls, is_set):
         t = cls()
         for k in goodk:
@@ -165,6 +181,10 @@ def main():
             if is_set:
                 entries = [('add', lambda t: t.add(x)), ('update', lambda t: t.update([x])),
                            ('ctor', None), ('ior', lambda t: operator.ior(t, [x])), ('setstate', None)]
+                # members taken from a set of a wider family (same implementation): converted and checked like any others
+                for tag, src in setsources(x):
+                    entries.append(('update_from_' + tag, (lambda s_: (lambda t: t.update(s_)))(src)))
+                    entries.append(('ior_from_' + tag, (lambda s_: (lambda t: operator.ior(t, s_)))(src)))
             else:
                 entries = [('setitem', lambda t: t.__setitem__(x, goodv)), ('setdefault', lambda t: t.setdefault(x, goodv)),
                            ('update', lambda t: t.update([(x, goodv)])), ('ctor', None), ('setstate', None)]
